@@ -598,7 +598,14 @@ func c05Usable(cs *vkit.Case, x *vexec.Exec, g *vexec.Gen, name, id, where strin
 	mi := x.M.Idx[name]
 	dim := mi.Dim
 	if dim == 0 {
-		dim = g.Dim
+		// The index has never held a vector: it takes a vector of ANY dimension, whatever
+		// the dimensions of the calls it has rejected so far (a rejected call must not
+		// settle the dimension of the index).
+		dim = vkit.Pick(cs.R, []int{g.Dim, g.Dim, g.Dim + 1, g.Dim + 3, 2 * g.Dim, 1, max(1, g.Dim-1)})
+		cs.C.Count("usable.never_populated_index", 1)
+		if dim != g.Dim {
+			cs.C.Count("usable.never_populated_index_other_dimension", 1)
+		}
 	}
 	wasEmpty := len(mi.Recs) == 0
 	v := make([]float32, dim)
@@ -618,6 +625,14 @@ func c05Usable(cs *vkit.Case, x *vexec.Exec, g *vexec.Gen, name, id, where strin
 		cs.Fail("filter fails %s: %v", where, err)
 	} else if wasEmpty && (len(ids) != 1 || ids[0] != id) {
 		cs.Fail("index unusable %s: VFilter(%s, use=true) = %v, want [%s]", where, name, ids, id)
+	}
+	if dim != g.Dim && mi.Dim == dim && wasEmpty {
+		// the rest of the episode draws vectors of the generator's dimension: give the
+		// index its never-populated state back (drop and create again, same definition)
+		cfg := mi.Cfg
+		x.VDeleteIndex(name)
+		x.VCreate(cfg)
+		return
 	}
 	if cs.R.Chance(0.5) || (wasEmpty && cs.R.Chance(0.6)) {
 		x.VDelete(name, id)
